@@ -136,7 +136,9 @@ func (l *entryLog) AddEntries(entries []raftpb.Entry) error {
 			// from the entries after the one in which the entry was found.
 			if l.nextEntryIdx > lastIdx {
 				logger.GetLogger().Info("clearCurrentFile slots", zap.Int("startSlot", lastIdx), zap.Int("endSlot", l.nextEntryIdx))
-				_ = l.current.entry.WriteSlice(lastIdx, l.nextEntryIdx, int64(entrySize*lastIdx), make([]byte, entrySize*l.nextEntryIdx-entrySize*lastIdx), false, true)
+				// WriteSlice prepends a 4-byte length to the buffer, so the buffer must be 4 bytes shorter than
+				// the range to clear: prefix and zeros together cover exactly [lastIdx, nextEntryIdx).
+				_ = l.current.entry.WriteSlice(lastIdx, l.nextEntryIdx, int64(entrySize*lastIdx), make([]byte, entrySize*l.nextEntryIdx-entrySize*lastIdx-unit32Size), false, true)
 			}
 		} else {
 			// The existing entry was found in one of the previous file.
@@ -160,7 +162,9 @@ func (l *entryLog) AddEntries(entries []raftpb.Entry) error {
 			}
 			logger.GetLogger().Info("clearFirstFile slots", zap.Int("startSlot", lastIdx), zap.Int("endSlot", maxNumEntries),
 				zap.Int("fileLoc", firstIdx), zap.Int("fileNum", len(l.files)))
-			_ = l.current.entry.WriteSlice(lastIdx, maxNumEntries, int64(entrySize*lastIdx), make([]byte, logFileOffset-entrySize*lastIdx), false, true)
+			// WriteSlice prepends a 4-byte length to the buffer: without the correction the zeros would end 4 bytes
+			// past logFileOffset and wipe the length of the first payload of this file.
+			_ = l.current.entry.WriteSlice(lastIdx, maxNumEntries, int64(entrySize*lastIdx), make([]byte, logFileOffset-entrySize*lastIdx-unit32Size), false, true)
 			l.current.entry.setCurrent()
 			l.files = l.files[:firstIdx]
 			l.filesSync.Unlock()
